@@ -12,3 +12,13 @@ Definition opt_is_some {A} (o:option A) : bool := match o with Some _ => true | 
 Definition opt_get (o:option N) : N := match o with Some v => v | None => 0%N end.
 (* core::time::Duration::MAX in nanoseconds: u64::MAX seconds + 999,999,999 ns (saturating_mul / saturating_add clamp here) *)
 Definition duration_max : N := 18446744073709551615999999999%N.
+
+(* byte slices of the translated code are lists of N (the element range is the caller's hypothesis, as in Base/Tlv.v) *)
+From Coq Require Import List.
+Import ListNotations.
+Definition be_read (n:N) (l:list N) : N := fold_left (fun a x => (a * 256 + x)%N) (firstn (N.to_nat n) l) 0%N.
+Definition be_write16 (l:list N) (off v:N) : list N :=
+  firstn (N.to_nat off) l ++ [(v / 256)%N; (v mod 256)%N] ++ skipn (N.to_nat off + 2) l.
+Fixpoint list_N_eqb (a b:list N) : bool :=
+  match a, b with [], [] => true | x :: a', y :: b' => (x =? y)%N && list_N_eqb a' b' | _, _ => false end.
+Definition be32_bytes (v:N) : list N := [(v / 16777216)%N; ((v / 65536) mod 256)%N; ((v / 256) mod 256)%N; (v mod 256)%N].
